@@ -76,6 +76,31 @@ impl ZkirRelation {
     }
 }
 
+#[cfg(feature = "verif-hooks")]
+impl ZkirRelation {
+    /// Verification hook: the off-circuit interpreter alone (no in-circuit
+    /// pass). Returns the published values in order.
+    pub fn verif_eval_offcircuit(
+        &self,
+        witness: HashMap<&'static str, IrValue>,
+    ) -> Result<Vec<IrValue>, Error> {
+        let mut parser = parser::offcircuit::Parser::new(witness);
+        (self.program.instructions.iter()).try_for_each(|i| parser.process_instruction(i))?;
+        Ok(parser.public_inputs())
+    }
+
+    /// Verification hook: the public-input types recorded by the last
+    /// in-circuit pass over this relation (empty before any pass).
+    pub fn verif_public_input_types(&self) -> Vec<IrType> {
+        self.public_input_types.borrow().clone()
+    }
+
+    /// Verification hook: the instructions of the underlying program.
+    pub fn verif_instructions(&self) -> Vec<Instruction> {
+        self.program.instructions.clone()
+    }
+}
+
 impl Relation for ZkirRelation {
     type Instance = Vec<(IrValue, IrType)>;
 
